@@ -340,23 +340,25 @@ func live(ns ...string) (r []ent) {
 	return
 }
 
-// witnesses of the known findings, emitted first on every run
+// first cases of every run: the witness of the remaining finding (prefix and pattern
+// together), then the witnesses of the repaired defects, which must now satisfy the property
 func witnesses() []spec {
 	one := func(kind int, dir []ent, start string, limit int64, prefix, pat, excl, label string) spec {
 		return spec{kind: kind, dir: dir, prefix: prefix, pat: pat, excl: excl, starts: []string{start}, limits: []int64{limit}, label: label}
 	}
 	ws := []spec{
-		one(kLevelDB, live("a", "ab", "b"), "", 10, "", "ab", "", "witness-0-nowild"),
-		one(kLevelDB, live("ab", "abc", "bb"), "", 10, "", "?b*", "", "witness-1-qprefix"),
-		one(kLevelDB, live("a", "b"), "a", 10, "b", "", "", "witness-2-start-below-prefix"),
-		one(kLevelDB2, live("a", "b"), "a", 10, "b", "", "", "witness-2-start-below-prefix"),
-		one(kLevelDB3, live("a", "b"), "a", 10, "b", "", "", "witness-2-start-below-prefix"),
-		one(kGeneric, live("a", "b", "c", "d"), "", 0, "d", "", "", "witness-3-generic-hang"),
-		one(kGeneric, []ent{{"a", false}, {"b", true}, {"b0", true}, {"ba", false}, {"bb", false}}, "", 3, "b", "", "", "witness-3-generic-dup"),
-		one(kLevelDB, []ent{{"a", false}, {"b", false}, {"c", true}}, "", 2, "", "*a", "", "witness-4-restart"),
-		one(kLevelDB, live("a", "ab", "b"), "", 10, "b", "a*", "", "witness-5-prefix-and-pattern"),
+		one(kLevelDB, live("a", "ab", "b"), "", 10, "b", "a*", "", "witness-0-prefix-and-pattern"),
+		one(kGeneric, live("a", "ab", "b"), "", 10, "a", "?b", "", "witness-0-prefix-and-pattern"),
+		one(kLevelDB, live("a", "ab", "b"), "", 10, "", "ab", "", "repaired-nowild"),
+		one(kLevelDB, live("ab", "abc", "bb"), "", 10, "", "?b*", "", "repaired-qprefix"),
+		one(kLevelDB, live("a", "b"), "a", 10, "b", "", "", "repaired-start-below-prefix"),
+		one(kLevelDB2, live("a", "b"), "a", 10, "b", "", "", "repaired-start-below-prefix"),
+		one(kLevelDB3, live("a", "b"), "a", 10, "b", "", "", "repaired-start-below-prefix"),
+		one(kGeneric, live("a", "b", "c", "d"), "", 0, "d", "", "", "repaired-generic-hang"),
+		one(kGeneric, []ent{{"a", false}, {"b", true}, {"b0", true}, {"ba", false}, {"bb", false}}, "", 3, "b", "", "", "repaired-generic-dup"),
+		one(kLevelDB, []ent{{"a", false}, {"b", false}, {"c", true}}, "", 2, "", "*a", "", "repaired-restart"),
 	}
-	g := spec{kind: kLevelDB, dir: []ent{{"a", false}, {"b", true}}, starts: []string{""}, limits: []int64{3}, pageLimits: []int64{3}, label: "witness-4-stream-lastname"}
+	g := spec{kind: kLevelDB, dir: []ent{{"a", false}, {"b", true}}, starts: []string{""}, limits: []int64{3}, pageLimits: []int64{3}, label: "repaired-stream-lastname"}
 	ws = append(ws, g)
 	return ws
 }
@@ -369,7 +371,7 @@ func allTriples() (all, clean []triple) {
 			for _, x := range excludes {
 				t := triple{p, pt, x}
 				all = append(all, t)
-				if (p == "" || pt == "") && pt != "ab" && pt != "?b*" {
+				if p == "" || pt == "" {
 					clean = append(clean, t)
 				}
 			}
@@ -380,7 +382,7 @@ func allTriples() (all, clean []triple) {
 
 func main() {
 	out := hx.Flags("C19", 120)
-	out.Rule = "case = store (leveldb/leveldb2/leveldb3/generic in turn) x directory (random subset of {a,'a b',ab,abc,b,b0,ba,c}, each child expired with prob 0, 1/4 or 1/2; neighbours /c /d-x /d2 /d/sub always present) x (prefix,pattern,exclude): odd cases walk ALL 70 triples of {'',a,ab,b,x}x{'',*,a*,*b,a?,ab,?b*}x{'',a*} (stride 17 from a seed-chosen offset, continued across the shards of one run), even cases draw a triple outside the static trigger sets; inside a case EVERY start in names+{'',aa,zz} x inclusive x limit in {0..4,1000} goes through ListDirectoryEntries and StreamListDirectoryEntries (directory restored before each call), plus pagination with page sizes 1..3 in both client styles; first cases = fixed witnesses of the known findings; non-trivial = some call returned entries without error; distinct = store+directory+triple"
+	out.Rule = "case = store (leveldb/leveldb2/leveldb3/generic in turn) x directory (random subset of {a,'a b',ab,abc,b,b0,ba,c}, each child expired with prob 0, 1/4 or 1/2; neighbours /c /d-x /d2 /d/sub always present) x (prefix,pattern,exclude): odd cases walk ALL 70 triples of {'',a,ab,b,x}x{'',*,a*,*b,a?,ab,?b*}x{'',a*} (stride 17 from a seed-chosen offset, continued across the shards of one run), even cases draw a triple outside the static trigger sets; inside a case EVERY start in names+{'',aa,zz} x inclusive x limit in {0..4,1000} goes through ListDirectoryEntries and StreamListDirectoryEntries (directory restored before each call), plus pagination with page sizes 1..3 in both client styles; first cases of shard 0 = the witness of the known finding (prefix and pattern together) and the witnesses of the repaired defects; non-trivial = some call returned entries without error; distinct = store+directory+triple"
 	sort.Strings(universe)
 	worlds := make([]*world, nKinds)
 	for k := range worlds {
